@@ -139,6 +139,100 @@ theorem evalBytes_rejects_non_json (decode : String → Option (Val N)) (encode 
     evalBytes decode encode evalE input = none := by
   simp [evalBytes, h]
 
+/-! ### closure at every depth, and what it buys -/
+
+mutual
+/-- **Closed values are exactly the values `json.Marshal` accepts** (the model's refusal test),
+    at every depth of nesting -/
+theorem closed_iff_marshals : ∀ v : Val N, JsonClosed v ↔ hasNonFinite v = false
+  | .num x => by simp [JsonClosed, Finite, hasNonFinite]
+  | .arr xs => by
+      have h := closedL_iff xs
+      simpa [JsonClosed, Finite, hasNonFinite] using h
+  | .obj kvs => by
+      have h := closedKV_iff kvs
+      simpa [JsonClosed, Finite, hasNonFinite] using h
+  | .null => by simp [JsonClosed, Finite, hasNonFinite]
+  | .bool _ => by simp [JsonClosed, Finite, hasNonFinite]
+  | .str _ => by simp [JsonClosed, Finite, hasNonFinite]
+  | .builtin _ => by simp [JsonClosed, Finite, hasNonFinite]
+  | .lambda .. => by simp [JsonClosed, Finite, hasNonFinite]
+  | .partialFn .. => by simp [JsonClosed, Finite, hasNonFinite]
+  | .transformFn .. => by simp [JsonClosed, Finite, hasNonFinite]
+  | .chain .. => by simp [JsonClosed, Finite, hasNonFinite]
+  | .regexFn .. => by simp [JsonClosed, Finite, hasNonFinite]
+  | .matchNext .. => by simp [JsonClosed, Finite, hasNonFinite]
+theorem closedL_iff : ∀ xs : List (Val N), FiniteL xs ↔ hasNonFiniteL xs = false
+  | [] => by simp [FiniteL, hasNonFiniteL]
+  | x :: xs => by
+      have h1 := closed_iff_marshals x
+      have h2 := closedL_iff xs
+      simp only [JsonClosed] at h1
+      simp [FiniteL, hasNonFiniteL, h1, h2]
+theorem closedKV_iff : ∀ kvs : List (String × Val N), FiniteKV kvs ↔ hasNonFiniteKV kvs = false
+  | [] => by simp [FiniteKV, hasNonFiniteKV]
+  | (k, v) :: kvs => by
+      have h1 := closed_iff_marshals v
+      have h2 := closedKV_iff kvs
+      simp only [JsonClosed] at h1
+      simp [FiniteKV, hasNonFiniteKV, h1, h2]
+end
+
+/-- objects built from closed members are closed -/
+theorem object_closed (kvs : List (String × Val N)) (h : ∀ kv ∈ kvs, JsonClosed kv.2) :
+    JsonClosed (.obj kvs) := by
+  show FiniteKV kvs
+  induction kvs with
+  | nil => trivial
+  | cons kv kvs ih =>
+    obtain ⟨k, v⟩ := kv
+    exact ⟨h (k, v) (by simp), ih (fun y hy => h y (List.mem_cons_of_mem _ hy))⟩
+
+/-- and conversely: every member of a closed container is closed (closure is hereditary) -/
+theorem array_members_closed (xs : List (Val N)) (h : JsonClosed (.arr xs)) : ∀ x ∈ xs, JsonClosed x := by
+  have h' : FiniteL xs := h
+  induction xs with
+  | nil => intro x hx; cases hx
+  | cons y ys ih =>
+    intro x hx
+    rcases List.mem_cons.mp hx with rfl | hx
+    · exact h'.1
+    · exact ih h'.2 h'.2 x hx
+
+/-- a closed value always has a string form: `$string` and `&` cannot fail on it -/
+theorem closed_has_string (v : Val N) (h : JsonClosed v) : ∃ s, stringOf v = .ok s := by
+  have hm := (closed_iff_marshals v).mp h
+  unfold stringOf
+  split
+  · exact ⟨_, rfl⟩
+  · split
+    · exact ⟨_, rfl⟩
+    · simp [hm]
+
+/-- **EvalBytes succeeds exactly when Eval succeeds** — for an encoder that accepts every closed value and an
+    evaluator whose values are closed (the two halves the rest of this file and the correspondence establish) -/
+theorem evalBytes_agrees (decode : String → Option (Val N)) (encode : Val N → Option String)
+    (evalE : Val N → Except Err (Option (Val N))) (input : String) (d : Val N)
+    (hd : decode input = some d)
+    (henc : ∀ v, JsonClosed v → ∃ out, encode v = some out)
+    (hclosed : ∀ v, evalE d = .ok (some v) → JsonClosed v) :
+    (∃ out, evalBytes decode encode evalE input = some out) ↔ (∃ v, evalE d = .ok (some v)) := by
+  constructor
+  · rintro ⟨out, h⟩
+    obtain ⟨d', v, hd', he, _⟩ := (evalBytes_spec decode encode evalE input out).mp h
+    rw [hd] at hd'; cases hd'
+    exact ⟨v, he⟩
+  · rintro ⟨v, he⟩
+    obtain ⟨out, ho⟩ := henc v (hclosed v he)
+    exact ⟨out, (evalBytes_spec decode encode evalE input out).mpr ⟨d, v, hd, he, ho⟩⟩
+
+/-- without closure the agreement fails: an evaluator returning a value the encoder refuses makes EvalBytes
+    fail where Eval succeeded (the `$sum([1e308,1e308])` defect of the pinned commit, F14) -/
+example : ∃ (encode : Val Int → Option String) (evalE : Val Int → Except Err (Option (Val Int))),
+    (∃ v, evalE .null = .ok (some v)) ∧ evalBytes (fun _ => some .null) encode evalE "null" = none :=
+  ⟨fun _ => none, fun _ => .ok (some .null), ⟨.null, rfl⟩, rfl⟩
+
+
 /-! ### regenerated facts -/
 
 /-- EvalBytes is Unmarshal, then Eval, then Marshal (trace inlined through package-local helpers) -/
